@@ -17,11 +17,11 @@ EXTENDS Tables
 
 Traces == ndJsonDeserialize(IOEnv.VERIF_TRACES)
 
-VARIABLES g, inp, opt, stack, sstack, vals, nodes, it, endIt, cur, line, col, mode, ph, status, msgs, red, mxd, ev,
+VARIABLES g, inp, opt, stack, sstack, vals, nodes, it, endIt, cur, line, col, mode, ph, status, msgs, red, mxd, lexev, ev,
           tix, pos, bad, fin
-vars == <<g, inp, opt, stack, sstack, vals, nodes, it, endIt, cur, line, col, mode, ph, status, msgs, red, mxd, ev, tix, pos, bad, fin>>
+vars == <<g, inp, opt, stack, sstack, vals, nodes, it, endIt, cur, line, col, mode, ph, status, msgs, red, mxd, lexev, ev, tix, pos, bad, fin>>
 
-D == INSTANCE Driver WITH RCell <- DumpCell, SCell <- SpecCell, LexAt <- LexDispatch, GR <- GRof
+D == INSTANCE Driver WITH RCell <- DumpCell, SCell <- SpecCell, LexAt <- LexDispatch, GR <- GRof, LexLines <- LexLinesDump
 
 E == Traces[tix].events
 
@@ -41,12 +41,16 @@ Step ==
   /\ bad = <<>> /\ status = "run" /\ ~fin
   /\ IF D!HaveTerm /\ ~D!CellsAgree
      THEN /\ bad' = <<"table", pos, D!Top(stack), D!T, D!Cell, D!SpecCellNow>>
-          /\ UNCHANGED <<g, inp, opt, stack, sstack, vals, nodes, it, endIt, cur, line, col, mode, ph, status, msgs, red, mxd, ev, tix, pos, fin>>
+          /\ UNCHANGED <<g, inp, opt, stack, sstack, vals, nodes, it, endIt, cur, line, col, mode, ph, status, msgs, red, mxd, lexev, ev, tix, pos, fin>>
      ELSE /\ D!DNext
-          /\ IF Visible(ev')
-             THEN IF pos <= Len(E) /\ Match(ev', E[pos]) THEN pos' = pos + 1 /\ bad' = bad
-                  ELSE pos' = pos /\ bad' = <<"event", pos, ev'>>
-             ELSE pos' = pos /\ bad' = bad
+          \* the generated lexer's verbose lines (kept in the trace when Traces[tix].lexl) come as a block before the event
+          /\ LET n == IF Traces[tix].lexl /\ Traces[tix].sk = 0 THEN Len(lexev') ELSE 0 IN
+             IF n > 0 /\ (pos + n - 1 > Len(E) \/ SubSeq(E, pos, pos + n - 1) # lexev')
+             THEN pos' = pos /\ bad' = <<"lexer-lines", pos, lexev'>>
+             ELSE IF Visible(ev')
+             THEN IF pos + n <= Len(E) /\ Match(ev', E[pos + n]) THEN pos' = pos + n + 1 /\ bad' = bad
+                  ELSE pos' = pos /\ bad' = <<"event", pos + n, ev'>>
+             ELSE pos' = pos + n /\ bad' = bad
           /\ UNCHANGED <<tix, fin>>
 
 \* the flattened real result tree must be the tree the specification built
@@ -72,7 +76,7 @@ FinalProblems ==
 Final ==
   /\ bad = <<>> /\ status # "run" /\ ~fin
   /\ fin' = TRUE /\ bad' = FinalProblems
-  /\ UNCHANGED <<g, inp, opt, stack, sstack, vals, nodes, it, endIt, cur, line, col, mode, ph, status, msgs, red, mxd, ev, tix, pos>>
+  /\ UNCHANGED <<g, inp, opt, stack, sstack, vals, nodes, it, endIt, cur, line, col, mode, ph, status, msgs, red, mxd, lexev, ev, tix, pos>>
 
 Next == Step \/ Final
 Spec == Init /\ [][Next]_vars
